@@ -21,6 +21,16 @@ type LocalFS struct {
 	once    sync.Once
 	entries chan walkEntry
 	sErr    error
+
+	// Modification times of the directories created so far. Creating entries
+	// in a directory updates its time again, so they are applied once more
+	// when unpacking is complete.
+	dirTimes []dirTime
+}
+
+type dirTime struct {
+	path  string
+	mtime time.Time
 }
 
 // LocalFSOptions influence the behavior of the filesystem when reading from or writing too it.
@@ -64,7 +74,26 @@ func (fs *LocalFS) CreateDir(n NodeDirectory) error {
 	if n.MTime == time.Unix(0, 0) {
 		return nil
 	}
+	fs.dirTimes = append(fs.dirTimes, dirTime{dst, n.MTime})
 	return os.Chtimes(dst, n.MTime, n.MTime)
+}
+
+// finalize is called when all entries of an archive have been created. It
+// restores the directory times that were changed by creating their entries.
+func (fs *LocalFS) finalize() error {
+	for _, d := range fs.dirTimes {
+		// The archive may have replaced the directory with something else since,
+		// only touch what still is a directory and never follow a symlink.
+		info, err := os.Lstat(d.path)
+		if err != nil || !info.IsDir() {
+			continue
+		}
+		if err := setPathTime(d.path, d.mtime); err != nil {
+			return err
+		}
+	}
+	fs.dirTimes = nil
+	return nil
 }
 
 func (fs *LocalFS) CreateFile(n NodeFile) error {
@@ -109,7 +138,7 @@ func (fs *LocalFS) CreateSymlink(n NodeSymlink) error {
 	if n.MTime == time.Unix(0, 0) {
 		return nil
 	}
-	return setSymlinkTime(dst, n.MTime)
+	return setPathTime(dst, n.MTime)
 }
 
 type walkEntry struct {
